@@ -45,7 +45,7 @@ def run(ctx):
     gcfg = open(vlib.VERIF + "/spec/Handler_gen_c03.cfg").read()
     if T:
         gcfg = gcfg.replace("MaxLen = 3", "MaxLen = 4").replace('Caches = {"empty", "own", "redir"}', 'Caches = {"empty", "own"}')
-    sim = vlib.tlc_behaviours(ctx, "Handler", "Handler_gen_c03_run.cfg", simulate=6000 if T else 900, depth=24,
+    sim = vlib.tlc_behaviours(ctx, "Handler", "Handler_gen_c03_run.cfg", simulate=6000 if T else 700, depth=24,
                               cfg_text=gcfg, timeout=900)
     behs += sim
     cases, infeasible = [], 0
